@@ -407,3 +407,143 @@ theorem isInfix_dcolon_none : ∀ (h : Str), (∀ c ∈ h, c ≠ ':') → isInfi
     simp [h1]
 
 end Pyxv.Binds
+
+namespace Pyxv.Binds
+open Pyxv
+
+/-! ### frame lemmas for the walk (noninterference) -/
+
+/-- two rows that occupy the same place in the structure: same kind, same names -/
+def sameShape : RK → RK → Prop
+  | .skip, .skip => True
+  | .qs l, .qs l' => l.map (·.name) = l'.map (·.name)
+  | .begin_ rep pre q, .begin_ rep' pre' q' =>
+    rep = rep' ∧ pre.map (·.name) = pre'.map (·.name) ∧ q.name = q'.name
+  | .end_ a, .end_ b => a = b
+  | _, _ => False
+
+theorem mkElem_paths (root : Str) (st : List (Str × Bool)) (l : List Q) :
+    (l.map (mkElem root st)).map (·.path) =
+      (l.map (·.name)).map (fun n => root :: ((st.map (·.1)).reverse ++ [n])) := by
+  simp [List.map_map, mkElem, Function.comp_def]
+
+theorem sameShape_names (r r' : RK) (h : sameShape r r') : rkNames r = rkNames r' := by
+  cases r <;> cases r' <;> simp only [sameShape] at h <;> simp_all [rkNames]
+
+theorem walk_some_map {root : Str} {st : List (Str × Bool)} {rs : List RK} {pre es : List Elem}
+    (h : (walk root st rs).map (pre ++ ·) = some es) : ∃ B, walk root st rs = some B ∧ es = pre ++ B := by
+  cases hw : walk root st rs with
+  | none => rw [hw] at h; cases h
+  | some B => rw [hw] at h; simp only [Option.map_some, Option.some.injEq] at h; exact ⟨B, rfl, h.symm⟩
+
+/-- replacing one row by a row of the same shape changes only that row's own elements, and not
+    their paths -/
+theorem walk_frame (root : Str) : ∀ (pre : List RK) (st : List (Str × Bool)) (r r' : RK) (post : List RK)
+    (es : List Elem), sameShape r r' → walk root st (pre ++ r :: post) = some es →
+    ∃ A M M' B, es = A ++ M ++ B ∧ walk root st (pre ++ r' :: post) = some (A ++ M' ++ B) ∧
+      M.length = (rkNames r).length ∧ M'.length = (rkNames r').length ∧
+      M.map (·.path) = M'.map (·.path) := by
+  intro pre
+  induction pre with
+  | nil =>
+    intro st r r' post es hs h
+    simp only [List.nil_append] at h ⊢
+    cases r <;> cases r' <;> simp only [sameShape] at hs
+    · -- skip
+      unfold walk at h ⊢
+      exact ⟨[], [], [], es, by simp, by simpa using h, rfl, rfl, rfl⟩
+    · -- qs
+      next l l' =>
+      unfold walk at h ⊢
+      obtain ⟨B, hB, rfl⟩ := walk_some_map h
+      refine ⟨[], l.map (mkElem root st), l'.map (mkElem root st), B, by simp, by simp [hB], by simp [rkNames],
+        by simp [rkNames], ?_⟩
+      rw [mkElem_paths, mkElem_paths, hs]
+    · -- begin
+      next rep p q rep' p' q' =>
+      obtain ⟨h1, h2, h3⟩ := hs
+      subst h1
+      unfold walk at h ⊢
+      obtain ⟨B, hB, rfl⟩ := walk_some_map h
+      refine ⟨[], (p ++ [q]).map (mkElem root st), (p' ++ [q']).map (mkElem root st), B, by simp,
+        by rw [← h3]; simp [hB], by simp [rkNames], by simp [rkNames], ?_⟩
+      rw [mkElem_paths, mkElem_paths]
+      simp [h2, h3]
+    · -- end
+      subst hs
+      cases st with
+      | nil => unfold walk at h; cases h
+      | cons f st' =>
+        obtain ⟨n, rp⟩ := f
+        unfold walk at h ⊢
+        exact ⟨[], [], [], es, by simp, by simpa using h, rfl, rfl, rfl⟩
+  | cons x pre ih =>
+    intro st r r' post es hs h
+    simp only [List.cons_append] at h ⊢
+    cases x with
+    | skip =>
+      unfold walk at h ⊢
+      exact ih st r r' post es hs h
+    | qs l =>
+      unfold walk at h ⊢
+      obtain ⟨B, hB, rfl⟩ := walk_some_map h
+      obtain ⟨A, M, M', B', rfl, hw, h1, h2, h3⟩ := ih st r r' post B hs hB
+      exact ⟨l.map (mkElem root st) ++ A, M, M', B', by simp, by simp [hw], h1, h2, h3⟩
+    | begin_ rep p q =>
+      unfold walk at h ⊢
+      obtain ⟨B, hB, rfl⟩ := walk_some_map h
+      obtain ⟨A, M, M', B', rfl, hw, h1, h2, h3⟩ := ih _ r r' post B hs hB
+      exact ⟨(p ++ [q]).map (mkElem root st) ++ A, M, M', B', by simp, by simp [hw], h1, h2, h3⟩
+    | end_ rep =>
+      cases st with
+      | nil => unfold walk at h; cases h
+      | cons f st' =>
+        obtain ⟨n, rp⟩ := f
+        unfold walk at h ⊢
+        split at h
+        · next he => rw [if_pos he]; exact ih st' r r' post es hs h
+        · cases h
+    | unsupported w => unfold walk at h; cases h
+
+theorem renderAll_append (root : Str) (tops : List Str) : ∀ (x y : List Elem) (bs : List Bind),
+    renderAll root tops (x ++ y) = some bs →
+    ∃ bx by_, renderAll root tops x = some bx ∧ renderAll root tops y = some by_ ∧ bs = bx ++ by_ := by
+  intro x
+  induction x with
+  | nil => intro y bs h; exact ⟨[], bs, rfl, by simpa using h, rfl⟩
+  | cons e rest ih =>
+    intro y bs h
+    rw [List.cons_append] at h
+    unfold renderAll at h
+    split at h
+    · cases h
+    · next ob hx =>
+      split at h
+      · cases h
+      · next bs' hr =>
+        simp only [Option.some.injEq] at h
+        obtain ⟨bx, by_, h1, h2, rfl⟩ := ih y bs' hr
+        subst h
+        cases ob with
+        | none => exact ⟨bx, by_, by simp only [renderAll, hx, h1], h2, rfl⟩
+        | some b => exact ⟨b :: bx, by_, by simp only [renderAll, hx, h1], h2, rfl⟩
+
+theorem renderAll_length (root : Str) (tops : List Str) (es : List Elem) (bs : List Bind)
+    (h : renderAll root tops es = some bs) : bs.length ≤ es.length := by
+  have := (renderAll_paths root tops es bs h).length_le
+  simpa using this
+
+theorem topNames_frame : ∀ (pre : List RK) (d : Nat) (r r' : RK) (post : List RK), sameShape r r' →
+    topNames d (pre ++ r :: post) = topNames d (pre ++ r' :: post) := by
+  intro pre
+  induction pre with
+  | nil =>
+    intro d r r' post hs
+    cases r <;> cases r' <;> simp only [sameShape] at hs <;> simp only [List.nil_append, topNames]
+    · rw [hs]
+    · rw [hs.2.1]
+  | cons x pre ih =>
+    intro d r r' post hs
+    cases x <;> simp only [List.cons_append, topNames, ih _ r r' post hs]
+
+end Pyxv.Binds
